@@ -432,6 +432,15 @@ def _case_tearDown(self):
         raise make_exc(t.get('exc2', t.get('exc', 'ValueError')), t.get('msg'))
 
 
+def _case_run(self, result=None):
+    # delimits everything the runner does around one test (incl. tests that never start)
+    emit('T', ph='run', id=self.id())
+    try:
+        return unittest.TestCase.run(self, result)
+    finally:
+        emit('T', ph='ran', id=self.id())
+
+
 def _safe_str(obj):
     try:
         return str(obj)
@@ -480,7 +489,8 @@ def _make_body(t):
 
 def build_case(node, modname, layers):
     tests = {t['n']: t for t in node['tests']}
-    ns = {'__module__': modname, '_ztv_tests': tests, 'setUp': _case_setUp, 'tearDown': _case_tearDown}
+    ns = {'__module__': modname, '_ztv_tests': tests, 'setUp': _case_setUp, 'tearDown': _case_tearDown,
+          'run': _case_run}
     for t in node['tests']:
         ns[t['n']] = _make_body(t)
     if any('str' in t for t in node['tests']):
